@@ -251,6 +251,56 @@ STMT_KINDS = ("CompoundStmt", "IfStmt", "WhileStmt", "ForStmt", "SwitchStmt", "C
 UNSUPPORTED = ("IndirectGotoStmt",)
 
 
+def _strip_parens(d):
+    while isinstance(d, dict) and d.get("kind") in ("ParenExpr",) and len(d.get("inner", [])) == 1:
+        d = d["inner"][0]
+    return d
+
+
+def _has_call(d):
+    if not isinstance(d, dict):
+        return False
+    if d.get("kind") == "CallExpr":
+        return True
+    return any(_has_call(c) for c in d.get("inner", []))
+
+
+def _lower_conditionals(d):
+    """Statement-level conditional expressions whose arms call something are control flow written as an expression:
+    `return c ? f() : g();` and `x = c ? f() : g();` are rewritten (on the JSON tree, before any analysis sees it) into the
+    if / else they abbreviate, so that guards, status use and typestate are decided on one form.  Value selections without
+    calls (`c ? 1 : 0`) stay expressions."""
+    if not isinstance(d, dict):
+        return d
+    inner = d.get("inner")
+    if not inner:
+        return d
+    out = []
+    for c in inner:
+        c = _lower_conditionals(c)
+        if isinstance(c, dict) and d.get("kind") in ("CompoundStmt", "IfStmt", "ForStmt", "WhileStmt", "DoStmt", "LabelStmt", "CaseStmt", "DefaultStmt"):
+            k = c.get("kind")
+            if k == "ReturnStmt" and len(c.get("inner", [])) == 1:
+                e = _strip_parens(c["inner"][0])
+                if e.get("kind") == "ConditionalOperator" and len(e.get("inner", [])) == 3 and (_has_call(e["inner"][1]) or _has_call(e["inner"][2])):
+                    cnd, a, b = e["inner"]
+                    c = {"kind": "IfStmt", "range": c.get("range"), "hasElse": True, "id": c.get("id"), "inner": [
+                        cnd, {"kind": "ReturnStmt", "range": a.get("range"), "inner": [a]},
+                        {"kind": "ReturnStmt", "range": b.get("range"), "inner": [b]}]}
+            elif k == "BinaryOperator" and c.get("opcode") == "=" and len(c.get("inner", [])) == 2:
+                e = _strip_parens(c["inner"][1])
+                if e.get("kind") == "ConditionalOperator" and len(e.get("inner", [])) == 3 and (_has_call(e["inner"][1]) or _has_call(e["inner"][2])):
+                    cnd, a, b = e["inner"]
+                    lhs = c["inner"][0]
+                    mk = lambda arm: {"kind": "BinaryOperator", "opcode": "=", "type": c.get("type"), "valueCategory": c.get("valueCategory"),
+                                      "range": {"begin": (lhs.get("range") or {}).get("begin"), "end": (arm.get("range") or {}).get("end")},
+                                      "inner": [lhs, arm]}
+                    c = {"kind": "IfStmt", "range": c.get("range"), "hasElse": True, "id": c.get("id"), "inner": [cnd, mk(a), mk(b)]}
+        out.append(c)
+    d["inner"] = out
+    return d
+
+
 class TU(object):
     """One translation unit: functions with bodies, record declarations, source text."""
 
@@ -266,7 +316,7 @@ class TU(object):
         self.records = {}
         self.vars = {}
         for d in docs:
-            n = CNode(d, self)
+            n = CNode(_lower_conditionals(d), self)
             if n.kind == "FunctionDecl":
                 body = [c for c in n.children if c.kind == "CompoundStmt"]
                 if body:
@@ -463,7 +513,7 @@ def discover_functions(text):
 def discover_tables(text):
     """names of file-scope constant arrays with an initialiser (`static const T name[..] = {`), e.g. tables of attribute names"""
     import re
-    return list(dict.fromkeys(re.findall(r"^static\s+const\s+[^;=(){}]*?\b([A-Za-z_][A-Za-z_0-9]*)\s*\[[^\]]*\]\s*=\s*\{", text, flags=re.M)))
+    return list(dict.fromkeys(re.findall(r"^static\s+const\s+[^;=(){}]*?\b([A-Za-z_][A-Za-z_0-9]*)\s*\[[^\]]*\]\s*=\s*[{\"]", text, flags=re.M)))
 
 
 def parse_all(relpath, repo=None, ext=False):
